@@ -472,6 +472,30 @@ def _dtype_reference(c, o, make, Xte_unused=None, reg=False):
         o["f64_pred_err"] = err
 
 
+def _other_object(c, o, clf, make, Xte, reg=False):
+    """a second object: AFTER the case's object A is fitted, another object B of the same class is constructed and
+    fitted on other labels / other data and stays alive; A's outputs just before B are kept for comparison"""
+    h = c.get("other")
+    if not h:
+        return
+    _seed_global(c, 2)
+    val, err = _call(lambda: (clf.predict(Xte) if reg else clf.predict_proba(Xte)))
+    o["preB_out"], o["preB_err"] = (None if err else np.array(val)), err
+    hc = dict(c, labels=h["labels"], xseed=h["xseed"], L=h.get("L", c["L"]), ytest=h["labels"][:1], yas=h.get("yas", "np"))
+    hc.pop("dup", None); hc.pop("pred_order", None)
+    Xh, yh, _, _ = _panel(hc)
+    if reg:
+        yh = np.array([float(v) for v in h["labels"]])
+    B = make()
+    _seed_global(c, 21)
+    _, err = _call(lambda: B.fit(Xh, yh))
+    o["B_fit_err"] = err
+    o["_B"] = B                                              # B stays alive while A is queried
+    if not err and not reg:
+        _seed_global(c, 22)
+        _call(lambda: B.predict_proba(Xh))
+
+
 def _obs_clf(c):
     Xtr, ytr, Xte, yte = _panel(c)
     algo = c["algo"]
@@ -488,6 +512,7 @@ def _obs_clf(c):
     _dtype_reference(c, o, lambda: _make(c), reg=(algo == "reg"))
     if err:
         return o
+    _other_object(c, o, clf, lambda: _make(c), Xte, reg=(algo == "reg"))
     o["classes"] = None if algo == "reg" else list(clf.classes_)
     # install spies on the fitted members
     if algo in ("tsf", "rise", "stsf", "reg"):
@@ -553,6 +578,7 @@ def _obs_indiv(c):
     _dtype_reference(c, o, lambda: _make(dict(c, algo="indiv")))
     if err:
         return o
+    _other_object(c, o, clf, lambda: _make(dict(c, algo="indiv")), Xte)
     o["classes"] = list(clf.classes_)
     _seed_global(c, 2)
     pred, err = _call(lambda: clf.predict(Xte))
@@ -599,10 +625,10 @@ def _obs_colens(c):
     Xtr, ytr, Xte, yte = _panel(c)
     _CE_LOG.clear()
 
-    def build():
-        return ColumnEnsembleClassifier(_ests())
+    def build(prefix="m"):
+        return ColumnEnsembleClassifier(_ests(prefix))
 
-    def _ests():
+    def _ests(prefix="m"):
         ests = []
         for i, (drop, key, inner) in enumerate(c["entries"]):
             if drop:
@@ -615,7 +641,7 @@ def _obs_colens(c):
                                                         random_state=c.get("rs", 0) + i)
                 else:
                     base = K["CentroidMember"](sharp=1 + i % 3)
-                est = K["SpyMember"](inner=base, tag="m%d" % i)
+                est = K["SpyMember"](inner=base, tag="%s%d" % (prefix, i))
             ests.append(("e%d" % i, est, _entry_key(key)))
         return ests
     o = {"ytr": list(np.asarray(ytr)), "yte": list(yte), "n_test": len(Xte), "names": list(Xtr.columns)}
@@ -628,6 +654,7 @@ def _obs_colens(c):
     o["fit_err"] = err
     if err:
         return o
+    _other_object(c, o, clf, lambda: build("b"), Xte)
     o["classes"] = list(clf.classes_)
     tags = [e.tag for (_, e, _) in clf.estimators_]
     o["tags"] = tags
@@ -660,6 +687,10 @@ def _obs_base(c):
     o["fit_err"] = err
     if err:
         return o
+    if c.get("other"):
+        Xh, yh, _, _ = _panel(dict(cc, labels=c["other"]["labels"], xseed=c["other"]["xseed"], ytest=c["other"]["labels"][:1]))
+        o["_B"] = K["BaseStub"](P=P)
+        _call(lambda: o["_B"].fit(Xh, yh))
     o["classes"] = list(clf.classes_)
     pred, err = _call(lambda: clf.predict(Xte))
     o["pred"], o["pred_err"] = (None if err else np.array(pred)), err
@@ -716,7 +747,80 @@ def _obs_bossfit(c):
     return {"fit_err": err, "n_estimators": int(getattr(clf, "n_estimators", 0)), "ytr": list(np.asarray(ytr))}
 
 
-_OBSERVERS = {"bossfit": _obs_bossfit, "clf": _obs_clf, "indiv": _obs_indiv, "colens": _obs_colens, "base": _obs_base, "feat": _obs_feat,
+STATIC_FILES = ["classification/base.py", "classification/interval_based/_tsf.py", "classification/interval_based/_rise.py",
+                "classification/interval_based/_stsf.py", "series_as_features/base/estimators/interval_based/_tsf.py",
+                "classification/dictionary_based/_boss.py", "classification/dictionary_based/_cboss.py",
+                "classification/dictionary_based/_tde.py", "classification/dictionary_based/_muse.py",
+                "classification/dictionary_based/_weasel.py", "classification/compose/_column_ensemble.py",
+                "regression/interval_based/_tsf.py", "regression/base.py", "transformations/panel/dictionary_based/_sfa.py"]
+MUTATORS = {"append", "extend", "insert", "update", "add", "setdefault", "pop", "remove", "clear", "popitem", "discard", "sort"}
+
+
+def _obs_static(c):
+    """mutable literals (dict / list / set) bound at CLASS level and mutated in place through `self.<name>` in a method that
+    has not re-bound `self.<name>` before (in `__init__` or earlier in that method): state shared by all instances"""
+    import ast, os
+    root = os.path.join(skcompat_repo(), "sktime")
+    flagged = []
+    for rel in STATIC_FILES:
+        path = os.path.join(root, rel)
+        if not os.path.exists(path):
+            continue
+        tree = ast.parse(open(path).read())
+        for cls in [n for n in ast.walk(tree) if isinstance(n, ast.ClassDef)]:
+            shared = {}
+            for st in cls.body:
+                tg = st.targets if isinstance(st, ast.Assign) else [st.target] if isinstance(st, ast.AnnAssign) and st.value else []
+                val = getattr(st, "value", None)
+                if isinstance(val, (ast.Dict, ast.List, ast.Set, ast.DictComp, ast.ListComp, ast.SetComp)) or (
+                        isinstance(val, ast.Call) and isinstance(val.func, ast.Name) and val.func.id in ("dict", "list", "set", "defaultdict")):
+                    for t in tg:
+                        if isinstance(t, ast.Name):
+                            shared[t.id] = st.lineno
+            if not shared:
+                continue
+            methods = [m for m in cls.body if isinstance(m, ast.FunctionDef)]
+
+            def rebinds(fn):
+                out = {}
+                for n in ast.walk(fn):
+                    tg = n.targets if isinstance(n, ast.Assign) else []
+                    for t in tg:
+                        if isinstance(t, ast.Attribute) and isinstance(t.value, ast.Name) and t.value.id == "self":
+                            out.setdefault(t.attr, n.lineno)
+                            out[t.attr] = min(out[t.attr], n.lineno)
+                return out
+            init_rebinds = {}
+            for m in methods:
+                if m.name == "__init__":
+                    init_rebinds = rebinds(m)
+            for m in methods:
+                rb = rebinds(m)
+                for n in ast.walk(m):
+                    name = how = None
+                    if isinstance(n, (ast.Assign, ast.AugAssign, ast.Delete)):
+                        tg = n.targets if not isinstance(n, ast.AugAssign) else [n.target]
+                        for t in tg:
+                            if (isinstance(t, ast.Subscript) and isinstance(t.value, ast.Attribute) and isinstance(t.value.value, ast.Name)
+                                    and t.value.value.id == "self"):
+                                name, how = t.value.attr, "written by item assignment in %s()" % m.name
+                    elif (isinstance(n, ast.Call) and isinstance(n.func, ast.Attribute) and n.func.attr in MUTATORS
+                          and isinstance(n.func.value, ast.Attribute) and isinstance(n.func.value.value, ast.Name)
+                          and n.func.value.value.id == "self"):
+                        name, how = n.func.value.attr, "mutated by .%s() in %s()" % (n.func.attr, m.name)
+                    if name in shared and name not in init_rebinds and not (name in rb and rb[name] < n.lineno):
+                        item = (cls.name, name, how, "sktime/" + rel, n.lineno)
+                        if not any(f[:2] == item[:2] for f in flagged):
+                            flagged.append(item)
+    return {"flagged": flagged}
+
+
+def skcompat_repo():
+    import skcompat
+    return skcompat.REPO
+
+
+_OBSERVERS = {"static": _obs_static, "bossfit": _obs_bossfit, "clf": _obs_clf, "indiv": _obs_indiv, "colens": _obs_colens, "base": _obs_base, "feat": _obs_feat,
               "tsffeat": _obs_tsffeat, "tsfit": _obs_tsfit}
 
 
@@ -748,6 +852,8 @@ def run_real(c):
     if "harness_error" in o:
         raise RuntimeError(o["harness_error"])
     kind = c["kind"]
+    if kind == "static":
+        return "static flagged=%d" % len(o["flagged"])
     if kind == "feat":
         return "feat=" + (o["err"] if o["err"] else _mat(_std_sq(o["feat"])))
     if kind == "tsffeat":
@@ -817,6 +923,8 @@ def _show_key(k, names=None):
 def to_line(c):
     o = _observe(c)
     kind = c["kind"]
+    if kind == "static":
+        return None
     if kind == "feat":
         return "C17 feat %s %s" % (_mat(c["X"]), _ivs(c["ivs"]))
     if kind == "tsffeat":
@@ -1063,6 +1171,24 @@ def _expected_avg(o):
     return out / len(mats)
 
 
+def _check_other_object(c, o, site, fails):
+    """another object of the same class, fitted in between on other labels, must not change A's answers"""
+    if not c.get("other") or "preB_err" not in o or o.get("fit_err"):
+        return
+    reg = c.get("algo") == "reg"
+    mine, mine_err = (o.get("pred"), o.get("pred_err")) if reg else (o.get("proba"), o.get("proba_err"))
+    key = site + ":other-object-interferes"
+    if bool(mine_err) != bool(o["preB_err"]):
+        fails.append((key, "before the other object was fitted: %s; afterwards: %s" % (o["preB_err"] or "ok", mine_err or "ok")))
+        return
+    if mine_err:
+        return
+    A, B = np.array(mine, dtype=float), np.array(o["preB_out"], dtype=float)
+    if A.shape != B.shape or not np.allclose(A, B, rtol=0, atol=1e-12, equal_nan=True):
+        fails.append((key, "A's output before another object was fitted on %r: %r (shape %r); afterwards: %r (shape %r)" % (
+            sorted(set(c["other"]["labels"]), key=str), B.reshape(-1)[:6].tolist(), B.shape, A.reshape(-1)[:6].tolist(), A.shape)))
+
+
 VALUE_FIXED = ("tsf", "reg", "colens", "tsffeat")      # the statement fixes the VALUE: average of trees / members on exact features
 
 
@@ -1148,6 +1274,13 @@ def oracle(c, out):
         _check_refit_vs_fresh(c, o, c.get("algo", kind), fails)
     if kind in ("clf", "indiv", "colens", "tsffeat"):
         _check_vs_float64(c, o, c.get("algo", kind), fails)
+        _check_other_object(c, o, c.get("algo", kind), fails)
+    if kind == "static":
+        for (cls, name, how, path, line) in o["flagged"]:
+            fails.append(("static:shared-mutable-class-attribute:%s.%s" % (cls, name),
+                          "%s:%d: class attribute %s.%s is a mutable literal and is %s without being re-bound on the instance first: "
+                          "one object shared by every instance" % (path, line, cls, name, how)))
+        return fails
     if kind == "feat":
         if o["err"]:
             return fails
@@ -1285,6 +1418,8 @@ def features(c, out):
         if _type_kind(ls[0]) == "int":
             s = sorted(set(ls))
             f.append("contiguous" if s == list(range(s[0], s[0] + len(s))) and s[0] == 0 else "non-contiguous")
+    if c.get("other"):
+        f.append("second-object=fitted-in-between")
     if c.get("dtype"):
         f.append("panel-dtype=" + c["dtype"])
         d = _dtype_differs(c, o)
@@ -1582,6 +1717,8 @@ def gen_cases(tier, rng):
             c = _clf_case(rng, algo, tier)
             if rng.random() < 0.3:
                 _add_history(rng, c, algo)
+            elif rng.random() < 0.2:
+                tmp = dict(c); _add_history(rng, tmp, algo); c["other"] = tmp["hist"][0]; c["other"].pop("L", None)
             cases.append(c)
     for _ in range(12 if q else 300):
         c = _indiv_case(rng)
@@ -1668,6 +1805,38 @@ def gen_cases(tier, rng):
         cases.append({"kind": "colens", "labels": [ls[i % len(ls)] for i in range(6)], "ytest": [rng.choice(ls) for _ in range(2)],
                       "xseed": rng.randrange(1 << 30), "rs": rng.randrange(50), "L": 8, "ncol": ncol, "colnames": names,
                       "entries": entries, "noise": 3})
+    # static side: class-level mutable state in the classifier classes
+    cases.append({"kind": "static"})
+    # a second object: between fit and the queries of the case's object A, an object B of the same class is fitted on a
+    # label set that is a subset / superset / reordering / of another dtype (a shared label then has another column)
+    for algo in ("tsf", "rise", "stsf", "boss", "cboss", "tde", "muse", "indiv", "colens", "reg"):
+        for rel in ("subset", "superset", "disjoint", "dtype", "overlap"):
+            for rep in range(1 if q else 4):
+                if algo == "reg" and rel != "superset":
+                    continue
+                c = (_indiv_case(rng) if algo == "indiv" else _colens_case(rng) if algo == "colens" else _clf_case(rng, algo, tier))
+                if algo in ("boss", "cboss", "tde", "indiv") and c["L"] < 10:
+                    c["L"] = 10
+                if algo != "reg" and len(set(map(str, c["labels"]))) < 3:
+                    ls = list(dict.fromkeys(c["labels"]))
+                    extra = [v for v in (STR_POOL if isinstance(ls[0], str) else INT_POOL) if v not in ls][0]
+                    c["labels"] = c["labels"] + [extra]
+                tmp = dict(c)
+                _add_history(rng, tmp, algo, relation=rel)
+                h = tmp["hist"][0]
+                if rel == "subset" and algo != "reg":
+                    # drop the SMALLEST label: every remaining shared label moves one column to the left in B
+                    last = sorted(set(c["labels"]), key=lambda v: (str(type(v)), v))
+                    keep = last[1:]
+                    h["labels"] = [keep[i % len(keep)] for i in range(max(len(keep), 5))]
+                h.pop("L", None)
+                c["other"] = h
+                cases.append(c)
+    for _ in range(10 if q else 150):
+        c = _base_random(rng)
+        ls = list(dict.fromkeys(c["labels"]))
+        c["other"] = {"labels": (ls[1:] + ls[1:] if len(ls) > 2 else ls + [ls[0]]), "xseed": rng.randrange(1 << 30)}
+        cases.append(c)
     # refit history, systematically: every classifier x every relation between the earlier and the last label set
     for algo in ("tsf", "rise", "stsf", "boss", "cboss", "tde", "muse", "indiv", "colens", "reg"):
         for rel in ("superset", "subset", "disjoint", "dtype", "same"):
